@@ -314,10 +314,41 @@ type world struct {
 
 var logger = zap.NewNop()
 
-func newWorld(spe int, res *vh.Result, beh string) *world {
-	inner, err := kv.NewInMemory(logger, basedb.Options{})
-	if err != nil {
-		panic(err)
+// opening an in-memory badger costs ~150 ms; sequential behaviours share one database that is wiped in between
+var sharedDB *kv.BadgerDB
+
+func wipe(db *kv.BadgerDB) {
+	for _, pfx := range []string{"pratersigner_data-highest_att-", "pratersigner_data-highest_prop-",
+		"pratersigner_data-accounts-", "pratersigner_data-wallet-"} {
+		var keys [][]byte
+		_ = db.GetAll([]byte(pfx), func(i int, o basedb.Obj) error {
+			keys = append(keys, append([]byte(nil), o.Key...))
+			return nil
+		})
+		for _, k := range keys {
+			if err := db.Delete([]byte(pfx), k); err != nil {
+				panic(err)
+			}
+		}
+	}
+}
+
+func newWorld(spe int, res *vh.Result, beh string) *world { return newWorldDB(spe, res, beh, true) }
+
+func newWorldDB(spe int, res *vh.Result, beh string, shared bool) *world {
+	var inner *kv.BadgerDB
+	if shared && sharedDB != nil {
+		inner = sharedDB
+		wipe(inner)
+	} else {
+		var err error
+		inner, err = kv.NewInMemory(logger, basedb.Options{})
+		if err != nil {
+			panic(err)
+		}
+		if shared {
+			sharedDB = inner
+		}
 	}
 	w := &world{net: newFakeNet(spe), inner: inner, res: res, beh: beh, pending: map[string]*pendingReq{}}
 	w.net.slot.Store(uint64(spe))
@@ -332,7 +363,11 @@ func newWorld(spe int, res *vh.Result, beh string) *world {
 	return w
 }
 
-func (w *world) close() { _ = w.inner.Close() }
+func (w *world) close() {
+	if w.inner != sharedDB {
+		_ = w.inner.Close()
+	}
+}
 
 // boot = process start: a new signer object on the surviving database
 func (w *world) boot() {
@@ -938,7 +973,7 @@ func concurrent(seed int64, rounds, spe int, res *vh.Result) {
 	rng := rand.New(rand.NewSource(seed))
 	for r := 0; r < rounds; r++ {
 		beh := fmt.Sprintf("conc-%d", r)
-		w := newWorld(spe, res, beh)
+		w := newWorldDB(spe, res, beh, false) // own database: requests stuck in the dependency's lock are abandoned
 		if out, _, err := w.addShare(plan{K: "none"}); out != "ok" {
 			panic(fmt.Sprintf("AddShare failed: %v", err))
 		}
